@@ -25,7 +25,7 @@ REQUIRED_REACH = {"_modules.py": ["GELU.forward", "SiLU.forward", "Softmax.forwa
                                   "MLP.forward", "MHSA.forward", "TransformerLayer.forward", "Linear.reset_parameters", "Conv1d.reset_parameters",
                                   "DepthModuleList.__init__", "DepthSequential.__init__"],
                   "docs.py": ["_validate.<locals>._validate_args_supported"]}
-MIN_NONTRIVIAL = {"quick": 300, "thorough": 5000}
+MIN_NONTRIVIAL = {"quick": 300, "thorough": 15000}
 
 BINARY = [None, "gmean", "hmean", "amean", "to_output_scale", "to_grad_input_scale"]
 CLASSES = ["GELU", "SiLU", "Softmax", "Dropout", "Linear", "LinearReadout", "Conv1d", "LayerNorm", "RMSNorm", "Embedding", "CrossEntropyLoss",
